@@ -390,7 +390,8 @@ func (runInfo *runInfoStruct) makeCallArgs(rt reflect.Type, isRunVMFunction bool
 	// number of expressions
 	numExprs := len(callExpr.SubExprs)
 	// checks to short circuit wrong number of arguments
-	if (!rt.IsVariadic() && !callExpr.VarArg && numIn != numExprs) ||
+	if (callExpr.VarArg && numExprs < 1) ||
+		(!rt.IsVariadic() && !callExpr.VarArg && numIn != numExprs) ||
 		(rt.IsVariadic() && callExpr.VarArg && (numIn < numExprs || numIn > numExprs+1)) ||
 		(rt.IsVariadic() && !callExpr.VarArg && numIn > numExprs+1) ||
 		(!rt.IsVariadic() && callExpr.VarArg && numIn < numExprs) {
